@@ -288,9 +288,20 @@ def r5_shutdown(prog, rep: Report, fm: Cls, mp: Func):
     rep.check("C05.R5", mp, "sentinels", sent_i is not None and sent_ok and (last_put_i is None or last_put_i < sent_i),
               "one None per worker, after the last work put", "mul_p_map does not send one None per worker after the last work item",
               scenario="a sentinel overtakes work: a worker stops while items are still queued and nobody processes them")
+    drain_i = None
+    for i, st in enumerate(body):
+        if isinstance(st, ast.While) and any(isinstance(c, ast.Call) and queue_call(c) and queue_call(c) == ("get", "blocking")
+                                             for c in ast.walk(st)):
+            drain_i = i
     rep.check("C05.R5", mp, "joins", join_i is not None and sent_i is not None and join_i > sent_i,
               "every worker joined after the sentinels", "mul_p_map does not join its workers after sending the sentinels",
               scenario="worker processes are left running after the call returned")
+    rep.check("C05.R5", mp, "join-after-drain", join_i is not None and drain_i is not None and join_i > drain_i,
+              "workers are joined only after every owed result was collected",
+              "the workers are joined before the remaining results were taken from the results queue: a worker that still has "
+              "to write a result larger than the pipe buffer never exits, join() never returns and nobody reads the pipe",
+              scenario="f(x) = str(x) * 400000: the last results do not fit into the queue's pipe, the worker blocks in its feeder "
+                       "thread, join() blocks the parent: deadlock")
     call = prog.method(fm, "__call__")
     stores = [n for n in walk_own(call.node) if isinstance(n, (ast.Assign, ast.AugAssign))
               and any(dotted(t) and dotted(t)[0] == call.self_name for t in (n.targets if isinstance(n, ast.Assign) else [n.target]))]
